@@ -518,7 +518,9 @@ def run(tape, prop, tier):
             hops_desc['set_cookie'] = headers[-1][1]
 
         def redirect(code, tgt, spell_noise=True, raw_location=None):
-            if raw_location is None:
+            if raw_location is None and tgt is None:
+                loc = None              # a redirect status without a Location field
+            elif raw_location is None:
                 loc, kind = tgt.spell(tape, exp, noise=spell_noise)
                 if kind != 'absolute':
                     r.probes['relative_location'] += 1
